@@ -3,5 +3,6 @@ INVARIANT PhononIgnoresTable
 INVARIANT StaticIgnoresT
 INVARIANT FillFirst
 INVARIANT GammaLocal
+INVARIANT VrefUnused
 INVARIANT Emit
 PROPERTY Completes
